@@ -181,6 +181,16 @@ def oracle(c):
                 if str(b.valid_bit) != "1":
                     continue
                 addrs = [int(a, 16) for a, _ in b.address_value_list]
+                try:
+                    _ty, _pol, ib, bb, _assoc, _pen = next(x for x in c.lines if x.startswith("sim.new")).split()[3].split(",")
+                    ib, bb = int(ib), int(bb)
+                    tb = 32 - ib - bb - 2
+                    want_tag = "0x" + ("{:0" + str(-(-tb // 4)) + "X}").format(addrs[0] >> (ib + bb + 2))
+                    want_idx = "0x" + ("{:0" + str(-(-ib // 4)) + "X}").format((addrs[0] >> (bb + 2)) % (1 << ib))
+                    if str(b.tag) != want_tag or str(s_.index) != want_idx:
+                        return [Failure("oracle", PROP, f"data-cache table: the block at 0x{addrs[0]:08X} is shown in set {s_.index} with tag {b.tag}; its address has set index {want_idx} and tag {want_tag}", "cache-table:tag")]
+                except (StopIteration, ValueError):
+                    pass
                 if any(y - x != 4 for x, y in zip(addrs, addrs[1:])):
                     return [Failure("oracle", PROP, f"data-cache table: the cells of one block show the addresses {[hex(a) for a in addrs]}", "cache-table:addresses")]
                 for a, v in b.address_value_list:
